@@ -75,6 +75,10 @@ def case(g, tier, ci):
             ops.append({"op": "bp.removeSegMarker", "id": "b", "name": nm, "mid": r.choice([1, 2])})
         ops += [{"op": "bp.desc", "id": "b"}, {"op": "el.addBP", "id": "e", "ch": 1, "bp": "b"},
                 {"op": "el.getArrays", "id": "e", "time": False}]
+        if r.random() < 0.25:
+            # written to JSON and read back: every segment-bound window is still on its own segment (numbered siblings too)
+            ops += [{"op": "bp.json", "id": "b", "to": "bj"}, {"op": "bp.setSR", "id": "bj", "SR": enc(SR)},
+                    {"op": "el.new", "id": "ej"}, {"op": "el.addBP", "id": "ej", "ch": 1, "bp": "bj"}, {"op": "el.getArrays", "id": "ej", "time": False}]
         if r.random() < 0.35:
             # the SAME element forged, edited through the element, forged again (twice): the windows of the
             # first forging must not linger anywhere
@@ -87,7 +91,9 @@ def case(g, tier, ci):
 def nontrivial(ops, ri):
     for o, r in zip(ops, ri):
         if o["op"] == "el.getArrays" and "ok" in r:
-            a = r["ok"][1]
+            a = r["ok"].get(1) if isinstance(r["ok"], dict) else None
+            if a is None:
+                continue
             if a["m1"].any() or a["m2"].any():
                 return True
     return False
